@@ -3,7 +3,7 @@ from props import consumer_engine as E
 
 PROP = "C03"
 LEVEL = "exploration"
-RUNS = {"quick": 2500, "thorough": 100000}
+RUNS = {"quick": 10000, "thorough": 400000}
 SHRINK_LISTS = ("faults", "tasks", "ops", "appends", "descs")
 
 
